@@ -33,11 +33,9 @@ class Uniform(Distribution):
             # If inside, compute the area and obtain the constant 
             # probability (pdf) as 1 divided by the area, the convert 
             # to logpdf. Special case if scalar.
-            diff = self.high - self.low
-            if isinstance(diff, (list, tuple, np.ndarray)): 
-                v= np.prod(diff)
-            else:
-                v = diff
+            # Side lengths of the box (scalar bounds apply to every component)
+            diff = (self.high - self.low)*np.ones(self.dim)
+            v = np.prod(diff)
             return_val = np.log(1.0/v)
         return return_val
 
